@@ -290,6 +290,9 @@ def run(repo: Repo, rep: Report, tier: str) -> None:
     from ..delegate import delegate
     rep.rule("provider-survives", "ARTIM cannot expire in the release states (Sta7-Sta12) unless Table 9-10 defines Evt18 there (C05's artim rule)")
     delegate(repo, rep, tier, "C05", ("artim",), "provider-survives", "the provider thread dies between the peer's A-RELEASE-RQ and pynetdicom's answer: neither A-RELEASE-RP nor A-ABORT is ever sent", only=lambda f: any(f"Sta{k}" in (f["key"].get("stmt", "") + f["detail"]) for k in (7, 8, 9, 10, 11, 12)))
+    delegate(repo, rep, tier, "C04", ("artim-run-state",), "provider-survives", "a timer the state machine stopped is running again: ARTIM expires in an established association (Sta6 has no transition for Evt18), the provider thread dies and a later A-RELEASE-RQ gets neither A-RELEASE-RP nor A-ABORT")
+    rep.rule("request-reaches-action", "every received PDU is queued together with its event, so AR-2 takes the A-RELEASE-RQ it was raised for (C03's one-per-call)")
+    delegate(repo, rep, tier, "C03", ("one-per-call",), "request-reaches-action", "a PDU queued without its event stays on _recv_pdu; when the peer's A-RELEASE-RQ arrives AR-2 pops the stale PDU instead, no release indication reaches the association and neither A-RELEASE-RP nor A-ABORT is sent")
 
     # ---- the association thread reaches its reactor ---------------------------------------------------
     from ..lints import contextmanagers_yield_once
